@@ -2,7 +2,7 @@
    Proofs.v and followed by Print Assumptions.  Statements are over the regenerated
    Gen/C07Gen.v (align_offset, validate_write_options) and the model in C07/Model.v. *)
 From Coq Require Import ZArith List Bool Lia Permutation.
-From IRV Require Import Base.Exn Gen.C07Gen C07.Model C07.Proofs C07.Names C07.EndToEnd.
+From IRV Require Import Base.Exn Base.PyList Gen.C07Gen Gen.C07LoopsGen C07.Model C07.Proofs C07.Names C07.EndToEnd C07.GenEquiv.
 Import ListNotations.
 Open Scope Z_scope.
 
@@ -159,3 +159,48 @@ Proof. repeat split; try lia; repeat constructor; lia. Qed.
 Example C07_example_shard :
   shard (fun x : Z => x) [3; 4; 20; 1; 1] 8 None 0 = [[3; 4]; [20]; [1; 1]].
 Proof. reflexivity. Qed.
+
+(* ------------------------------------------------------------------------------------------------
+   The source loops themselves.  Gen/C07LoopsGen.v is re-translated from external_data.py and
+   _safetensors/__init__.py on every run, statement by statement (tools/translate_loops.py).  The theorems below say
+   that the translated loops ARE the model functions above, for every input — so every theorem of this file is a
+   theorem about the code of the loops as it stands now, and an edit of a loop either keeps these equalities provable
+   or breaks this obligation. *)
+Theorem C07_source_offset_loop_is_layout :
+  forall (A : Type) (nbytes : A -> Z) ts al thr, gen_layout nbytes ts al thr = layout (map nbytes ts) al thr.
+Proof. exact @gen_layout_is_layout. Qed.
+Print Assumptions C07_source_offset_loop_is_layout.
+
+Theorem C07_source_shard_loop_is_shard :
+  forall (A : Type) (nbytes : A -> Z) ts m al thr, gen_shard_tensors nbytes ts m al thr = shard nbytes ts m al thr.
+Proof. exact @gen_shard_is_shard. Qed.
+Print Assumptions C07_source_shard_loop_is_shard.
+
+Theorem C07_source_safetensors_shard_loop_is_st_shard :
+  forall (A : Type) (nbytes : A -> Z) ts mo, gen_st_shard nbytes ts mo = st_shard nbytes ts mo.
+Proof. exact @gen_st_shard_is_st_shard. Qed.
+Print Assumptions C07_source_safetensors_shard_loop_is_st_shard.
+
+Theorem C07_source_threshold_is_classifier :
+  forall n thr, gen_becomes_external n thr = match after_save_kind n thr with External => true | InMemory => false end.
+Proof. exact gen_becomes_external_is_kind. Qed.
+Print Assumptions C07_source_threshold_is_classifier.
+
+(* the recorded ranges of a whole save, computed by the translated loops only, are the model's prediction
+   (which the correspondence check compares with the files the implementation writes) *)
+Theorem C07_source_prediction_is_model :
+  forall sizes threshold maxshard al thr,
+    gen_predict_files sizes threshold maxshard al thr = map snd (predict_files sizes threshold maxshard al thr).
+Proof. exact gen_predict_files_is_model. Qed.
+Print Assumptions C07_source_prediction_is_model.
+
+(* and so the headline layout theorem holds of the translated offset loop directly *)
+Theorem C07_source_offsets_ordered_disjoint :
+  forall (A : Type) (nbytes : A -> Z) ts al thr, opts_ok al thr -> sizes_ok (map nbytes ts) ->
+    separated (gen_layout nbytes ts al thr) /\ map snd (gen_layout nbytes ts al thr) = map nbytes ts.
+Proof.
+  intros A nbytes ts al thr Ho Hs. rewrite gen_layout_is_layout. split.
+  - apply layout_from_separated; assumption.
+  - apply layout_from_lengths.
+Qed.
+Print Assumptions C07_source_offsets_ordered_disjoint.
